@@ -246,3 +246,8 @@ Proof.
   rewrite Z2Nat.id by (pose proof (Z.div_pos len ul_max_ad H HM); lia).
   pose proof (Z.div_mod len ul_max_ad ltac:(lia)). pose proof (Z.mod_pos_bound len ul_max_ad HM). lia.
 Qed.
+
+Print Assumptions ul_end_exact.
+Print Assumptions ul_tiled_disjoint.
+Print Assumptions ul_ads_cover.
+Print Assumptions ul_data_tiled.
